@@ -24,3 +24,11 @@ os.makedirs(os.path.join(HERE, "reference"), exist_ok=True)
 with open(os.path.join(HERE, "reference", "locals.json"), "w") as f:
     json.dump(out, f, indent=0, sort_keys=True)
 print("functions with locals: %d, locals: %d" % (sum(len(v) for v in out.values()), sum(len(x) for v in out.values() for x in v.values())))
+
+# statement-shape reference (hv/shape.py), on the normalised and de-renamed tree
+os.environ.pop("HV_NO_DERENAME", None)
+from hv import shape  # noqa: E402
+prog2 = Program()
+with open(os.path.join(HERE, "reference", "shapes.json"), "w") as f:
+    json.dump(shape.build_reference(prog2), f, indent=0, sort_keys=True)
+print("shape reference: %d modules, %d functions" % (len(prog2.modules), sum(len(m.funcs) for m in prog2.modules.values())))
